@@ -26,6 +26,32 @@ func c02Gen(rng *rand.Rand, tier string) []Case {
 	if tier == "thorough" {
 		nb = 4000
 	}
+	// claims about the running local node FAR AHEAD of its clock (leave ± prune by gossip, listed as left in a
+	// merge): the refuting join must carry a strictly greater time, or nobody else accepts it
+	na := 30
+	if tier == "thorough" {
+		na = 1500
+	}
+	for i := 0; i < na; i++ {
+		var ops []string
+		for j, k := 0, rng.Intn(3); j < k; j++ {
+			ops = append(ops, []string{"nj " + hexs("a"), fmt.Sprintf("mj %s %d", hexs("a"), 1+rng.Intn(4)), "oj"}[rng.Intn(3)])
+		}
+		t := uint64(100 + rng.Intn(900))
+		if rng.Intn(5) == 0 {
+			t = uint64(rng.Int63())
+		}
+		switch rng.Intn(3) {
+		case 0, 1:
+			ops = append(ops, fmt.Sprintf("ml %s %d %d", hexs(nodeSelf), t, rng.Intn(2)))
+		default:
+			ops = append(ops, fmt.Sprintf("mg %d %s:%d %s", rng.Intn(5), hexs(nodeSelf), t-1, hexs(nodeSelf)))
+		}
+		if rng.Intn(2) == 0 {
+			ops = append(ops, fmt.Sprintf("ml %s %d 0", hexs(nodeSelf), t+1+uint64(rng.Intn(50))), "ls")
+		}
+		out = append(out, Case{ID: fmt.Sprintf("a%d", i), Ops: ops, Nontrivial: true, Tags: []string{"claim-far-ahead"}})
+	}
 	for i := 0; i < nb; i++ {
 		x := hexs([]string{"a", "b", "node d"}[rng.Intn(3)])
 		var ops []string
@@ -100,7 +126,7 @@ func c02Gen(rng *rand.Rand, tier string) []Case {
 func init() {
 	register(&Prop{
 		ID: "C02",
-		Rule: "one real serf node per case; buffered-intent histories (2-4 join/leave intents, by gossip or merge, times 3/5/5/7 in every order with duplicates, about a member not listed yet, then NotifyJoin, sometimes a reaper tick before and a crash + merge after); random histories of memberlist notifications, join/leave intents with small colliding Lamport times (plus 2^64-2, 2^64-1, random 63-bit), push/pull merges with left lists, force-leaves, reaper ticks, LocalState reads; " +
+		Rule: "one real serf node per case; claims about the running local node far ahead of its clock (100-1000, random 63-bit; by gossip ± prune or as a left entry of a merge); buffered-intent histories (2-4 join/leave intents, by gossip or merge, times 3/5/5/7 in every order with duplicates, about a member not listed yet, then NotifyJoin, sometimes a reaper tick before and a crash + merge after); random histories of memberlist notifications, join/leave intents with small colliding Lamport times (plus 2^64-2, 2^64-1, random 63-bit), push/pull merges with left lists, force-leaves, reaper ticks, LocalState reads; " +
 			"non-trivial = an intent delivered out of Lamport order or for a not-yet-known member, and at least one merge; distinct = distinct op sequence",
 		Gen:  c02Gen,
 		Exec: nodeExec,
